@@ -36,6 +36,14 @@ Base == {<<a, <<>>>> : a \in Atoms} \cup MethodIdx \cup NullFirst
               <<Ref("IFn", <<>>), <<Interface("IFn", <<>>, <<CallSig(Str)>>)>>>>,
               <<Ref("IEmpty", <<>>), <<Interface("IEmpty", <<>>, <<>>)>>>>}
 
+(* Extract / Exclude at the top of the prop type *)
+FilterTs == {UnionT(<<Ref("Date", <<>>), Str, Num>>), UnionT(<<Str, ArrT(Str)>>), UnionT(<<Str, Num, Boo>>), UnionT(<<Obj, Boo, Str>>),
+             UnionT(<<Boo, Ref("Map", <<Str, Num>>), Kw("null")>>), Str}
+FilterUs == {Kw("object"), Boo, Str, UnionT(<<Str, Num>>), Kw("any"), Ref("Date", <<>>), Obj}
+Filters == {<<Ref(n, <<t, u>>), <<>>>> : n \in {"Extract", "Exclude"}, t \in FilterTs, u \in FilterUs}
+           \cup {<<Ref("Extract", <<Ref("FT", <<>>), Ref("FU", <<>>)>>),
+                   <<Alias("FT", UnionT(<<Ref("Date", <<>>), Str>>)), Interface("FU", <<>>, <<Prop("foo", "ident", TRUE, Str)>>)>>>>}
+
 Wrap(e, tag) ==
   {<<Ref("A" \o tag, <<>>), Append(e[2], Alias("A" \o tag, e[1]))>>,
    <<ParenT(e[1]), e[2]>>,
@@ -53,7 +61,7 @@ Unions(e, tag) ==
 
 Level1 == Base \cup UNION {Wrap(e, "1") : e \in Base} \cup UNION {Unions(e, "1") : e \in Base}
 Level2 == UNION {Wrap(e, "2") : e \in UNION {Unions(b, "1") : b \in Base}} \cup UNION {Unions(e, "2") : e \in UNION {Wrap(b, "1") : b \in Base}}
-Exprs == IF Depth >= 2 THEN Level1 \cup Level2 ELSE Level1
+Exprs == (IF Depth >= 2 THEN Level1 \cup Level2 ELSE Level1) \cup Filters
 
 Raw == {[type |-> TypeLit(<<Prop("p", "ident", opt, e[1])>>), decls |-> e[2], ptype |-> e[1]] : e \in Exprs, opt \in BOOLEAN}
 
